@@ -52,7 +52,20 @@ func mslOptionSets(thorough bool) []mslOpt {
 			return o
 		}}
 	}
-	out := []mslOpt{mk(msl.Version2_0, msl.BoundsCheckUnchecked, true, true), mk(msl.Version2_4, msl.BoundsCheckRestrict, true, false), mk(msl.Version3_1, msl.BoundsCheckReadZeroSkipWrite, true, true)}
+	// split policies: buffers (storage / uniform address spaces) protected, everything else unchecked
+	mkSplit := func(v msl.Version, buf msl.BoundsCheckPolicy) mslOpt {
+		return mslOpt{fmt.Sprintf("msl%s/policy=0+buffer=%d/zeroinit=true/loopbound=true", v, buf), func() msl.Options {
+			o := msl.DefaultOptions()
+			o.LangVersion = v
+			o.BoundsCheckPolicies = msl.BoundsCheckPolicies{Index: msl.BoundsCheckUnchecked, Buffer: buf, Image: buf, BindingArray: msl.BoundsCheckUnchecked}
+			o.ZeroInitializeWorkgroupMemory = true
+			o.ForceLoopBounding = true
+			o.FakeMissingBindings = true
+			return o
+		}}
+	}
+	out := []mslOpt{mk(msl.Version2_0, msl.BoundsCheckUnchecked, true, true), mk(msl.Version2_4, msl.BoundsCheckRestrict, true, false), mk(msl.Version3_1, msl.BoundsCheckReadZeroSkipWrite, true, true),
+		mkSplit(msl.Version2_4, msl.BoundsCheckReadZeroSkipWrite), mkSplit(msl.Version3_1, msl.BoundsCheckRestrict)}
 	if thorough {
 		out = append(out, mk(msl.Version1_2, msl.BoundsCheckUnchecked, true, false), mk(msl.Version2_1, msl.BoundsCheckReadZeroSkipWrite, true, true), mk(msl.Version3_0, msl.BoundsCheckRestrict, true, true))
 	}
